@@ -636,3 +636,9 @@ def check(rep, tier, replay=None):
     check_r3(rep, d["smooth::SO2"] + d["SO3"])
     check_r4(rep, tier)
     check_r5(rep, d["smooth::SO2"] + d["SO3"])
+    import roundir
+    rep.explanations.append(
+        "R6 (props/roundir.py: run_norm_amplification): with one operand's rotation coefficients scaled off the unit sphere, the squared norm of the result is read off the optimized IR; "
+        "its sensitivity to the operand's squared norm must not exceed 1 for inverse, composition, *= and rplus -- a necessary condition of the linear drift bound (n + 1) 1e-14: an "
+        "operation that multiplies the accumulated defect makes it grow geometrically.")
+    roundir.run_norm_amplification(rep, "R6")
